@@ -175,6 +175,18 @@ def fileOpen (bs : Nat) (img : Bytes) (numBlocks : Nat) : FileSt :=
   if img.length ≠ numBlocks * bs then { file := ftruncate img (numBlocks * bs), numBlocks := numBlocks }
   else { file := img, numBlocks := numBlocks }
 
+/-- The largest file offset (`int64`). -/
+def maxOff : Nat := 2 ^ 63 - 1
+
+/-- `NewFileDisk` refuses a block count whose byte length is not a file offset
+(`numBlocks > math.MaxInt64/BlockSize`): the products `a * BlockSize` it computes in `uint64`
+and converts to `int64` would wrap around or turn negative. -/
+def openable (bs numBlocks : Nat) : Bool := decide (numBlocks ≤ maxOff / bs)
+
+/-- `NewFileDisk` with its size check: `none` is the error return. -/
+def fileOpenChecked (bs : Nat) (img : Bytes) (numBlocks : Nat) : Option FileSt :=
+  if openable bs numBlocks then some (fileOpen bs img numBlocks) else none
+
 /-- The image a later `NewFileDisk` finds after `Close` (or after the process is killed:
 `pwrite` goes to the page cache, which survives the process). -/
 def fileClose (d : FileSt) : Bytes := d.file
